@@ -152,6 +152,13 @@ def extra_phase(ctx):
     except C.BuildError as e:
         out.violations.append(({"k": "asan-build"}, {"build_error": str(e)[-800:]}, None, None, "ASan build failed"))
         return {"asan_cases": 0}
+    # index / query workloads (C01-C06 style) and slop searches that stress the 512-slot span table
+    nw = {"quick": 12, "thorough": 150, "search": 20}[tier]
+    work = [{"w": "index", "seed": rng.randint(0, 10 ** 6)} for _ in range(nw)]
+    work += [{"w": "slop", "seed": rng.randint(0, 10 ** 6), "nterms": rng.choice([3, 6]), "len": rng.choice([200, 1200]),
+              "ndocs": 3, "q": rng.choice([2, 3, 6]), "slop": rng.choice([3, 10, 40])} for _ in range(max(3, nw // 3))]
+    work.append({"w": "slop", "seed": 7, "nterms": 6, "len": 1200, "ndocs": 3, "q": 6, "slop": 40})
+    cases = cases + work
     res = C.run_impl("harness.props.c14_asan", cases, asan, asan=True, timeout=3000)
     reports = 0
     for c, r in zip(cases, res):
